@@ -80,6 +80,22 @@ pub fn lib_new_inc(a: u32, n: u32) -> Option<u32> {
     catch_unwind(AssertUnwindSafe(|| NewSerial::new(a).inc(n as i32).get())).ok()
 }
 
+/// `Timestamp::to_system_time` relative to the reference time `reference`
+/// (seconds since the epoch); the result in seconds since the epoch, None for
+/// a panic or a time before the epoch.
+pub fn lib_place(ts: u32, reference: u64) -> Option<u64> {
+    use std::time::{Duration, UNIX_EPOCH};
+    catch_unwind(AssertUnwindSafe(|| {
+        Timestamp::from(ts)
+            .to_system_time(UNIX_EPOCH + Duration::from_secs(reference))
+            .duration_since(UNIX_EPOCH)
+            .ok()
+            .map(|d| d.as_secs())
+    }))
+    .ok()
+    .flatten()
+}
+
 //------------ zonetree sites -------------------------------------------------
 
 use bytes::Bytes;
